@@ -99,6 +99,8 @@ impl Callback for Balances {
                 .write_all(format!("{};{}\n", address, balance).as_bytes())?;
         }
 
+        // Make sure everything is written (and report write errors) before the file gets its final name
+        self.writer.flush()?;
         fs::rename(
             self.dump_folder.as_path().join("balances.csv.tmp"),
             self.dump_folder.as_path().join(format!(
